@@ -85,3 +85,22 @@ Theorem C08_stream_first_segment_common_key : forall c latency skew : Z,
   In (epoch KeyRefreshInterval_ns c) (slots KeyRefreshInterval_ns (c + latency + skew)).
 Proof. exact aged_key_common. Qed.
 Print Assumptions C08_stream_first_segment_common_key.
+
+(* ---- the SOURCE of the timestamp test as it is now (gen/Translated.v, regenerated from /repo on every run) ----
+   mathext.Mid and mathext.WithinRange at uint32 are the model's mid3 / within_range32 - the function under
+   timestamp_ok in C08_handshake_within_60s and C08_stale_refused - for all arguments; and the stamp written by
+   sessionStruct.Marshal at a clock of [t / NS] seconds is the model's minute(t). *)
+From M Require Import base.MiniGo gen.Translated proofs.TranslatedTimeProofs.
+
+Theorem C08_source_mid : forall a b c : Z, xl_mathext_Mid_uint32 a b c = mid3 a b c.
+Proof. exact xl_Mid_uint32_eq_model. Qed.
+Print Assumptions C08_source_mid.
+
+Theorem C08_source_within_range : forall v target margin : Z,
+  xl_mathext_WithinRange_uint32 v target margin = within_range32 v target margin.
+Proof. exact xl_WithinRange_uint32_eq_model. Qed.
+Print Assumptions C08_source_within_range.
+
+Theorem C08_source_stamp_is_minute : forall t : Z, stamp (t / NS) = minute t.
+Proof. exact stamp_minute. Qed.
+Print Assumptions C08_source_stamp_is_minute.
